@@ -56,8 +56,8 @@ Definition num_of (v : value) : N := match v with VNum n => n | VBin _ => 0 end.
 
 Definition plain_enc (t : ptype) (vs : list value) : bytes :=
   match t with
-  | BOOLEAN => bp_enc 1 (map num_of vs)
-  | _ => concat (map (plain_enc1 t) vs)
+  | BOOLEAN => bp_enc_x 1 (map num_of vs)
+  | _ => concat_tr (map (plain_enc1 t) vs)
   end.
 
 (* ---- PLAIN decoder ------------------------------------------------------------------------ *)
